@@ -306,6 +306,20 @@ let run (cmd : string) (a : v) : v =
             vlist (fun ((gw, (sa, sg)), (ca, cg)) -> L [vbool gw; vnat sa; vnat sg; vbool ca; vbool cg]) per;
             vlist (fun (((kind, grp), n), root) -> L [vnat kind; vnat grp; vnat n; (match root with None -> I (-1) | Some x -> vnat x)]) comm ])
         (placement_view c ls (fstep <> 0) (istep <> 0))
+  | "frame_step", L [I idt; L ps; L bufs] ->
+      (* entry: [layer|-1, is_bias, value token, grad token|-1, shape, dtype, device, contig] *)
+      let ent = function L [I l; I b; I v; I g; L sh; I dt; I dv; I ct] ->
+          { e_layer = (if l < 0 then None else Some (nat_of_int l)); e_bias = (b <> 0); e_value = nat_of_int v;
+            e_grad = (if g < 0 then None else Some (nat_of_int g,
+                       { t_shape = List.map (fun x -> nat_of_int (geti x)) sh; t_dtype = nat_of_int dt; t_device = nat_of_int dv; t_contig = (ct <> 0) })) }
+        | _ -> failwith "pentry" in
+      let e = { fparams = List.map ent ps; fbuffers = List.map (fun x -> nat_of_int (geti x)) bufs } in
+      let e' = step_env (fun l b -> nat_of_int (1000 + 2 * int_of_nat l + (if b then 1 else 0))) (nat_of_int idt) e in
+      L [ vlist (fun p -> L [ (match p.e_layer with None -> I (-1) | Some l -> vnat l); vbool p.e_bias; vnat p.e_value;
+                              (match p.e_grad with None -> L [] | Some (g, m) ->
+                                 L [vnat g; vlist vnat m.t_shape; vnat m.t_dtype; vnat m.t_device; vbool m.t_contig]) ]) e'.fparams;
+          vlist vnat e'.fbuffers;
+          vlist (fun p -> vbool (touched p)) e.fparams ]
   | _ -> failwith ("unknown command or bad argument: " ^ cmd)
 
 let () =
